@@ -61,6 +61,7 @@ type FuncContract struct {
 	Loops    map[int]*LoopContract
 	Inline   bool
 	Trusted  bool
+	Partial  bool // only ensures and assert-before-call clauses are checked (rest of the body is not claimed)
 	Safety   string // "" default on, "off"
 	SafeTags []string
 	ResultIs string
@@ -104,7 +105,7 @@ type PkgContracts struct {
 	Lemmas []*Lemma
 }
 
-var kwRe = regexp.MustCompile(`^(heapview\b|sumfield\b|ufun\b|requires\b|ensures\b|invariant\b|decreases\b|modifies\b|assert\b|loop \d|result is\b|inline$|trusted$|safety\b|param [A-Za-z_]|func\b|ghost\b|pred\b|axiom\b|lemma\b|nopanic$)`)
+var kwRe = regexp.MustCompile(`^(heapview\b|sumfield\b|ufun\b|assume\b|requires\b|ensures\b|invariant\b|decreases\b|modifies\b|assert\b|loop \d|result is\b|inline$|trusted$|partial$|safety\b|param [A-Za-z_]|func\b|ghost\b|pred\b|axiom\b|lemma\b|nopanic$)`)
 var tagRe = regexp.MustCompile(`^\[([^\]]*)\]`)
 
 func loadContracts(dir, pkgPath string) (*PkgContracts, error) {
@@ -242,6 +243,8 @@ func loadContracts(dir, pkgPath string) (*PkgContracts, error) {
 				cur.Inline = true
 			case "trusted":
 				cur.Trusted = true
+			case "partial":
+				cur.Partial = true
 			case "nopanic":
 			case "safety":
 				if rest == "off" {
@@ -317,13 +320,13 @@ func loadContracts(dir, pkgPath string) (*PkgContracts, error) {
 					fmt.Sscanf(m[2], "%d", &ord)
 				}
 				cur.Clauses = append(cur.Clauses, &Clause{Kind: "assert", Tags: tags, Src: strings.TrimSpace(m[3]), E: e, Line: l.line, Callee: m[1], Ord: ord})
-			case "requires", "ensures", "invariant", "decreases":
+			case "requires", "ensures", "invariant", "decreases", "assume":
 				e, err := parseSpecExpr(rest)
 				if err != nil {
 					return nil, fail(err)
 				}
 				c := &Clause{Kind: kw, Tags: tags, Src: rest, E: e, Line: l.line}
-				if kw == "invariant" || kw == "decreases" {
+				if kw == "invariant" || kw == "decreases" || kw == "assume" {
 					if curLoop == nil {
 						return nil, fail(fmt.Errorf("%s outside loop", kw))
 					}
